@@ -416,6 +416,15 @@ func concatPartsIP(v ssa.Value, frames []*ssa.Call, depth int) []partCtx {
 				call = x
 			}
 			if call != nil {
+				// Dir/Clean/... of a value a private helper concatenated: look through both
+				if cf := call.Call.StaticCallee(); cf != nil {
+					if ix, pure := pureStringFuncs[qualName(cf)]; pure && len(ix) == 1 && ix[0] >= 0 && ix[0] < len(call.Call.Args) {
+						if inner := concatPartsIP(call.Call.Args[ix[0]], frames, depth); len(inner) > 1 {
+							out = append(out, inner...)
+							continue
+						}
+					}
+				}
 				if cf := call.Call.StaticCallee(); cf != nil && inModule(cf) && cf.Blocks != nil && qualName(cf) != reduceFn {
 					if _, pure := pureStringFuncs[qualName(cf)]; !pure {
 						// the (single) return that yields a non-constant string
